@@ -24,15 +24,15 @@ def _cs(spec):
     return math.cos(th), math.sin(th), angle_rad_raw(a)
 
 
-def circle(cx, cy, r, x, y):
+def circle(cx, cy, r, x, y, pos_err=0.0):
     dx, dy = x - cx, y - cy
     d = np.hypot(dx, dy)
     m = r - d
-    tau = K * EPS * (d + r)
+    tau = K * EPS * (d + r) + 2 * pos_err
     return m > 0, np.abs(m) > tau
 
 
-def ellipse(cx, cy, w, h, c, s, angraw, x, y):
+def ellipse(cx, cy, w, h, c, s, angraw, x, y, pos_err=0.0):
     a, b = w / 2.0, h / 2.0
     dx, dy = x - cx, y - cy
     uu = c * dx + s * dy
@@ -42,18 +42,19 @@ def ellipse(cx, cy, w, h, c, s, angraw, x, y):
     # forward error of q: relative K*eps on every product plus the angle
     # conversion error eps*|theta| acting on the rotated offsets
     rel = K * EPS + 8 * EPS * angraw
-    band = rel * (1.0 + q) + 4 * rel * d / min(a, b) * np.sqrt(np.maximum(q, 0))
+    band = (rel * (1.0 + q)
+            + 4 * (rel * d + 2 * pos_err) / min(a, b) * (1 + np.sqrt(q)))
     return q <= 1.0, np.abs(1.0 - q) > band
 
 
-def rectangle(cx, cy, w, h, c, s, angraw, x, y):
+def rectangle(cx, cy, w, h, c, s, angraw, x, y, pos_err=0.0):
     a, b = w / 2.0, h / 2.0
     dx, dy = x - cx, y - cy
     uu = c * dx + s * dy
     vv = -s * dx + c * dy
     m = np.minimum(a - np.abs(uu), b - np.abs(vv))
     d = np.hypot(dx, dy)
-    tau = K * EPS * (d + a + b) + 8 * EPS * angraw * d
+    tau = K * EPS * (d + a + b) + 8 * EPS * angraw * d + 3 * pos_err
     return m > 0, np.abs(m) > tau
 
 
@@ -108,44 +109,48 @@ def polygon_vertices(spec):
     return vx, vy
 
 
-def membership(spec, x, y):
-    """(inside, definite) for the included shape described by *spec*."""
+def membership(spec, x, y, pos_err=0.0):
+    """(inside, definite) for the included shape described by *spec*.
+    *pos_err* is an additional absolute uncertainty of the query positions
+    (mask sample points are computed by the library in floating point)."""
     cls = spec['cls']
     x = np.asarray(x, float)
     y = np.asarray(y, float)
+    pe = pos_err
     if cls == 'CirclePixelRegion':
-        return circle(*map(float, spec['center']), float(spec['radius']), x, y)
+        return circle(*map(float, spec['center']), float(spec['radius']), x, y,
+                      pe)
     if cls == 'EllipsePixelRegion':
         c, s, ar = _cs(spec)
         return ellipse(*map(float, spec['center']), float(spec['width']),
-                       float(spec['height']), c, s, ar, x, y)
+                       float(spec['height']), c, s, ar, x, y, pe)
     if cls == 'RectanglePixelRegion':
         c, s, ar = _cs(spec)
         return rectangle(*map(float, spec['center']), float(spec['width']),
-                         float(spec['height']), c, s, ar, x, y)
+                         float(spec['height']), c, s, ar, x, y, pe)
     if cls == 'PolygonPixelRegion':
         vx, vy = polygon_vertices(spec)
-        return polygon(vx, vy, x, y)
+        return polygon(vx, vy, x, y, 2 * pe)
     if cls == 'RegularPolygonPixelRegion':
         vx, vy = regular_polygon_vertices(spec)
         r = float(spec['radius'])
         ar = angle_rad_raw(spec['angle']) if spec.get('angle') else 0.0
         extra = K * EPS * (r + abs(spec['center'][0]) + abs(spec['center'][1])) \
             + 8 * EPS * ar * r
-        return polygon(vx, vy, x, y, extra)
+        return polygon(vx, vy, x, y, extra + 2 * pe)
     if cls == 'CircleAnnulusPixelRegion':
         cx, cy = map(float, spec['center'])
-        i_in, d_in = circle(cx, cy, float(spec['inner_radius']), x, y)
-        i_out, d_out = circle(cx, cy, float(spec['outer_radius']), x, y)
+        i_in, d_in = circle(cx, cy, float(spec['inner_radius']), x, y, pe)
+        i_out, d_out = circle(cx, cy, float(spec['outer_radius']), x, y, pe)
         return i_out & ~i_in, d_in & d_out
     if cls in ('EllipseAnnulusPixelRegion', 'RectangleAnnulusPixelRegion'):
         cx, cy = map(float, spec['center'])
         c, s, ar = _cs(spec)
         f = ellipse if cls.startswith('Ellipse') else rectangle
         i_in, d_in = f(cx, cy, float(spec['inner_width']),
-                       float(spec['inner_height']), c, s, ar, x, y)
+                       float(spec['inner_height']), c, s, ar, x, y, pe)
         i_out, d_out = f(cx, cy, float(spec['outer_width']),
-                         float(spec['outer_height']), c, s, ar, x, y)
+                         float(spec['outer_height']), c, s, ar, x, y, pe)
         return i_out & ~i_in, d_in & d_out
     if cls in ('PointPixelRegion', 'LinePixelRegion', 'TextPixelRegion'):
         return np.zeros(x.shape, bool), np.ones(x.shape, bool)
@@ -187,12 +192,24 @@ def _compound_meta(spec):
     return r1.get('meta') or {}
 
 
-def stripped_ref(spec, x, y):
+def stripped_ref(spec, x, y, pos_err=0.0):
     """Reference membership of the include-STRIPPED region (what masks
     represent): compounds apply their operator to the stripped operands."""
     if spec['cls'] == 'CompoundPixelRegion':
         from vf.spec import OPS
-        a1, d1 = stripped_ref(spec['r1'], x, y)
-        a2, d2 = stripped_ref(spec['r2'], x, y)
+        a1, d1 = stripped_ref(spec['r1'], x, y, pos_err)
+        a2, d2 = stripped_ref(spec['r2'], x, y, pos_err)
         return OPS[spec['op']](a1, a2), d1 & d2
-    return membership(spec, x, y)
+    return membership(spec, x, y, pos_err)
+
+
+def center_of(spec):
+    """A representative centre of a leaf spec (for error scales)."""
+    if 'center' in spec:
+        return float(spec['center'][0]), float(spec['center'][1])
+    if spec['cls'] == 'PolygonPixelRegion':
+        vx, vy = polygon_vertices(spec)
+        return float(np.mean(vx)), float(np.mean(vy))
+    if spec['cls'] == 'LinePixelRegion':
+        return float(spec['start'][0]), float(spec['start'][1])
+    raise ValueError(spec['cls'])
